@@ -92,7 +92,7 @@ def partial_channel(
 
     """
     if dim is None:
-        dim = np.round(np.sqrt(list(rho.shape))).conj().T * np.ones(2)
+        dim = np.round(np.sqrt(list(rho.shape))).reshape(-1, 1) * np.ones((1, 2))
     if isinstance(dim, list):
         dim = np.array(dim)
 
